@@ -71,6 +71,9 @@ func (o *vfbChainOracle) onPut(n *vfbNode, b *common.Beacon, src string, seq int
 	}
 	if b.Round > 0 {
 		head, has := o.heads[n.pos]
+		if src == "bootstrap" && be == "memdb" {
+			has = false // the ring of a (re)started node is seeded with a verified recent beacon
+		}
 		if !has && be != "memdb" {
 			run.Violation("C02/put-before-genesis/"+be, fmt.Sprintf("node %d: round %d stored into an empty store", n.pos, b.Round), o.info())
 		}
@@ -218,10 +221,12 @@ func vfbChainCases(t *testing.T, prop string, c01, c02 bool, quick, thorough int
 				afterStart: func(nt *vfbNet, adv *vfbAdversary) {
 					orc = newChainOracle(nt, sc, c01, c02)
 					prevPut := nt.onPut
-					nt.onPut = func(n *vfbNode, b *common.Beacon, src string, seq int64) {
-						if src == "genesis" && nt.cfg.Backend == "memdb" {
-							orc.resetNode(n.pos)
+					nt.onOpen = func(n *vfbNode) {
+						if nt.cfg.Backend == "memdb" {
+							orc.resetNode(n.pos) // a ring starts empty on every start
 						}
+					}
+					nt.onPut = func(n *vfbNode, b *common.Beacon, src string, seq int64) {
 						prevPut(n, b, src, seq)
 						orc.onPut(n, b, src, seq)
 					}
